@@ -143,6 +143,21 @@ _J = [
     # the start is the first cell to be closed: until then no other cell has a parent
     "is_closed[start_py, start_px] or all(parent_ys[i, j] == -1 or (i == start_py and j == start_px) for i in range(0, height) for j in range(0, width))",
 ]
+# relaxation (Dijkstra) invariant: every in-raster crossable neighbour of a closed cell has been reached, and unless it is closed itself
+# its recorded distance is at most the closed cell's distance plus the step - a cheaper route into an open cell is never ignored
+_NY, _NX = "(i + neighbor_ys[k])", "(j + neighbor_xs[k])"
+_RELAX_BODY = ("(not (0 <= %(ny)s and %(ny)s < height and 0 <= %(nx)s and %(nx)s < width and %(cr)s)) or "
+               "((is_closed[%(ny)s, %(nx)s] or is_open[%(ny)s, %(nx)s]) and (is_closed[%(ny)s, %(nx)s] or "
+               "d_from_start[%(ny)s, %(nx)s] <= d_from_start[i, j] + pdist(float(j), float(i), float(%(nx)s), float(%(ny)s))))"
+               % {"ny": _NY, "nx": _NX, "cr": _CR(_NY, _NX)})
+_RELAX_ALL = ("all((not is_closed[i, j]) or (%s) for i in range(0, height) for j in range(0, width) for k in range(0, nn) "
+              "if trig(i) and trig(j))" % _RELAX_BODY)
+_RELAX_OTHERS = ("all((not is_closed[i, j]) or (i == py and j == px) or (%s) for i in range(0, height) for j in range(0, width) "
+                 "for k in range(0, nn) if trig(i) and trig(j))" % _RELAX_BODY)
+_RELAX_CUR = ("all(%s for q in range(0, k))" % _RELAX_BODY.replace("[k]", "[q]").replace("[i, j]", "[py, px]")
+              .replace("float(j), float(i)", "float(px), float(py)").replace("(i + ", "(py + ").replace("(j + ", "(px + "))
+_RELAX_CUR_K = (_RELAX_BODY.replace("[i, j]", "[py, px]").replace("float(j), float(i)", "float(px), float(py)")
+                .replace("(i + ", "(py + ").replace("(j + ", "(px + "))
 _BIGC = "(height + width) * (height + width)"
 Contract(
     M, "_a_star_search",
@@ -171,4 +186,43 @@ Contract(
     axioms=("sqrt",),
     native={"skip": True},
     notes="structural invariant only; optimality / existence are bounded",
+)
+
+
+# ---- the same function once more, for the relaxation (Dijkstra) invariant alone: carried separately from the parent-pointer
+# invariants above because together their instantiations feed each other (cell -> neighbour -> parent -> ...)
+_K = [
+    _J[0],
+    "all(isfinite(d_from_start[i, j]) and isfinite(cost[i, j]) for i in range(0, height) for j in range(0, width))",
+    "all(not (is_open[i, j] and is_closed[i, j]) for i in range(0, height) for j in range(0, width))",
+]
+Contract(
+    M, "_a_star_search@relax",
+    {"data": "f2", "path_img": "f2", "start_py": "int", "start_px": "int", "goal_py": "int", "goal_px": "int", "barriers": "f1",
+     "neighbor_ys": "i1", "neighbor_xs": "i1"},
+    lets=[("height", "data.shape[0]"), ("width", "data.shape[1]"), ("nb", "barriers.shape[0]"), ("nn", "neighbor_ys.shape[0]")],
+    requires=[
+        "path_img.shape[0] == height and path_img.shape[1] == width and neighbor_xs.shape[0] == nn",
+        "0 <= start_py and start_py < height and 0 <= start_px and start_px < width",
+        "0 <= goal_py and goal_py < height and 0 <= goal_px and goal_px < width",
+    ],
+    modifies=("path_img",),
+    loops={
+        0: LoopSpec("while", inv=_K + [
+            "(num_open > 0) == any(is_open[i, j] for i in range(0, height) for j in range(0, width))",
+            _RELAX_ALL,
+        ], assume=[
+            ("all((not is_open[i, j]) or cost[i, j] < %s for i in range(0, height) for j in range(0, width))" % _BIGC,
+             "the estimated cost of an open cell is below the (h+w)^2 cap of _min_cost_pixel_id (needs a path-length bound; not proved)"),
+        ]),
+        1: LoopSpec("for", index="k", inv=_K + [
+            "0 <= py and py < height and 0 <= px and px < width and is_closed[py, px] and not is_open[py, px]",
+            _RELAX_OTHERS, _RELAX_CUR,
+        ], cut=[_RELAX_CUR_K]),
+    },
+    options={"skip_call_requires": ("_reconstruct_path",)},
+    props=("C14",),
+    axioms=("sqrt",),
+    native={"skip": True},
+    notes="relaxation invariant only; the call-site preconditions of _reconstruct_path are discharged in the main contract",
 )
